@@ -217,6 +217,10 @@ func read_placeholder(rdr *tokenReader, placeholderValues *HashMap, ns EnvType) 
 	if tokenStruct == nil {
 		return nil, lisperror.NewLispError(errors.New("read_placeholder underflow"), &tokenStruct)
 	}
+	if placeholderValues == nil {
+		// no values given: every placeholder reads as nil
+		return nil, nil
+	}
 	return placeholderValues.Val[tokenStruct.Value], nil
 }
 
